@@ -1359,6 +1359,10 @@ class Node:
         if conn.state != PEER_CONNECTED:
             self.logger.warning(
                 f"{conn} got a CER while not waiting for one, ignoring")
+            # no answer will go out for it
+            self._origin_waiting_answer.pop(
+                f"{message.header.hop_by_hop_identifier}:"
+                f"{message.header.end_to_end_identifier}", None)
             return
 
         answer: CapabilitiesExchangeAnswer = self._generate_answer(conn, message)
